@@ -87,6 +87,36 @@ type c10Case struct {
 	SPP          int
 	Signed       bool
 	Seq          []int // frame symbols: 0 zeros, 1 ramp, 2 noise, 3 MAX
+	PM           int   // 0 nil parameters; 1 one parameters object with every tunable set away from its default, used for all calls of the case
+}
+
+// richParams returns the codec's own parameters object with every tunable it knows set to a valid non-default value.
+// The lossless syntaxes stay inside their lossless admission domain (no rate target, final lossless layer kept).
+func richParams(ts tsInfo, cd gcodec.Codec) gcodec.Parameters {
+	p := cd.GetDefaultParameters()
+	if p == nil {
+		return nil
+	}
+	set := func(kv ...any) {
+		for i := 0; i+1 < len(kv); i += 2 {
+			p.SetParameter(kv[i].(string), kv[i+1])
+		}
+	}
+	switch ts.Name {
+	case ".50", ".51":
+		set("quality", 37)
+	case ".57":
+		set("predictor", 4)
+	case ".81":
+		set("near", 2)
+	case ".90", ".92":
+		set("rate", 0, "targetRatio", 0.0, "numLayers", 3, "numLevels", 2, "progressionOrder", 2, "usePCRDOpt", true, "allowMCT", true)
+	case ".91", ".93":
+		set("numLevels", 1, "quantStepScale", 1.5, "subbandSteps", []float64{1, 1.5, 1.5, 2}, "rate", 30, "allowMCT", true)
+	case ".201", ".202", ".203":
+		set("blockWidth", 32, "blockHeight", 16, "numLevels", 2, "quality", 60)
+	}
+	return p
 }
 
 func c10Frame(a c10Case, sym int) []byte {
@@ -100,6 +130,10 @@ func c10Frame(a c10Case, sym int) []byte {
 }
 
 func encodeSeq(cd gcodec.Codec, fi *imagetypes.FrameInfo, frames [][]byte) ([][]byte, *eng.Fail) {
+	return encodeSeqP(cd, fi, frames, nil)
+}
+
+func encodeSeqP(cd gcodec.Codec, fi *imagetypes.FrameInfo, frames [][]byte, params gcodec.Parameters) ([][]byte, *eng.Fail) {
 	src := &recPD{info: fi}
 	var keep [][]byte
 	for _, f := range frames {
@@ -108,7 +142,7 @@ func encodeSeq(cd gcodec.Codec, fi *imagetypes.FrameInfo, frames [][]byte) ([][]
 		keep = append(keep, append([]byte(nil), f...))
 	}
 	dst := &recPD{info: fi}
-	if err := cd.Encode(src, dst, nil); err != nil {
+	if err := cd.Encode(src, dst, params); err != nil {
 		return nil, eng.Failf("encode-error:"+stripDigits(err.Error()), "%v", err)
 	}
 	for i := range keep {
@@ -127,6 +161,10 @@ func encodeSeq(cd gcodec.Codec, fi *imagetypes.FrameInfo, frames [][]byte) ([][]
 }
 
 func decodeSeq(cd gcodec.Codec, fi *imagetypes.FrameInfo, streams [][]byte) ([][]byte, *eng.Fail) {
+	return decodeSeqP(cd, fi, streams, nil)
+}
+
+func decodeSeqP(cd gcodec.Codec, fi *imagetypes.FrameInfo, streams [][]byte, params gcodec.Parameters) ([][]byte, *eng.Fail) {
 	src := &recPD{info: fi}
 	var keep [][]byte
 	for _, f := range streams {
@@ -134,7 +172,7 @@ func decodeSeq(cd gcodec.Codec, fi *imagetypes.FrameInfo, streams [][]byte) ([][
 		keep = append(keep, append([]byte(nil), f...))
 	}
 	dst := &recPD{info: fi}
-	if err := cd.Decode(src, dst, nil); err != nil {
+	if err := cd.Decode(src, dst, params); err != nil {
 		return nil, eng.Failf("decode-error:"+stripDigits(err.Error()), "%v", err)
 	}
 	for i := range keep {
@@ -174,6 +212,37 @@ func c10Run(a c10Case, c *eng.Ctx) *eng.Fail {
 		frames = append(frames, c10Frame(a, s))
 	}
 	key := c10Key(ts, a)
+	var params gcodec.Parameters
+	var pk0 string
+	if a.PM == 1 {
+		params = richParams(ts, cd)
+		if params == nil {
+			return nil
+		}
+		// the object must already be valid (Validate normalises invalid values in place, which is not a defect)
+		if v, ok := params.(interface{ Validate() error }); ok {
+			_ = v.Validate()
+		}
+		pk0 = deepKey(reflect.ValueOf(params))
+	}
+	encodeSeq := func(cd gcodec.Codec, fi *imagetypes.FrameInfo, frames [][]byte) ([][]byte, *eng.Fail) {
+		out, f := encodeSeqP(cd, fi, frames, params)
+		if f == nil && a.PM == 1 {
+			if pk := deepKey(reflect.ValueOf(params)); pk != pk0 {
+				return nil, eng.Failf("parameters-object-changed-by-encode", "Encode changed the caller's parameters object: %s -> %s", pk0, pk)
+			}
+		}
+		return out, f
+	}
+	decodeSeq := func(cd gcodec.Codec, fi *imagetypes.FrameInfo, streams [][]byte) ([][]byte, *eng.Fail) {
+		out, f := decodeSeqP(cd, fi, streams, params)
+		if f == nil && a.PM == 1 {
+			if pk := deepKey(reflect.ValueOf(params)); pk != pk0 {
+				return nil, eng.Failf("parameters-object-changed-by-decode", "Decode changed the caller's parameters object: %s -> %s", pk0, pk)
+			}
+		}
+		return out, f
+	}
 	enc, f := encodeSeq(cd, fi, frames)
 	if f != nil {
 		if len(f.Key) > 13 && f.Key[:13] == "encode-error:" {
@@ -731,6 +800,9 @@ func c10(c *eng.Ctx) {
 							seq := make([]int, l)
 							eng.SeqAt(4, l, k, seq)
 							jobs = append(jobs, c10Case{TS: ti, W: sz[0], H: sz[1], BA: f[0], BS: f[1], SPP: spp, Seq: seq})
+							if l <= 2 {
+								jobs = append(jobs, c10Case{TS: ti, W: sz[0], H: sz[1], BA: f[0], BS: f[1], SPP: spp, Seq: append([]int(nil), seq...), PM: 1})
+							}
 						}
 					}
 				}
@@ -748,7 +820,7 @@ func c10(c *eng.Ctx) {
 	if !done {
 		c.Capped("frame-sequence product cut by deadline")
 	}
-	c.Subspace("frame-sequences", c.Evals()-before, done, fmt.Sprintf("14 codecs x formats x SPP {1,3} x 3 sizes x every frame sequence of length 1..%d over 4 frame symbols", maxLen))
+	c.Subspace("frame-sequences", c.Evals()-before, done, fmt.Sprintf("14 codecs x formats x SPP {1,3} x 3 sizes x every frame sequence of length 1..%d over 4 frame symbols; sequences of length <= 2 also with one parameters object whose every tunable is non-default (quality, predictor, NEAR, layers/levels/progression/PCRD, custom sub-band steps with a scale, HT block shape), shared by all calls of the case and required to stay unchanged", maxLen))
 	c.Trans(c.Evals() - before)
 	// (2) histories on the registry instance (sequential per codec: the instance is shared)
 	before = c.Evals()
